@@ -872,6 +872,10 @@ def build(tier='quick', seed=0):
             arb_cases.append([V('greater_or_equal', '36.6', 36.6, 'lit'), V('less_or_equal', '36.60000000000001', 36.60000000000001, 'lit')])
         else:
             arb_cases.append([V('greater_or_equal', '36.6', rr(36.6), 'lit'), V('less_or_equal', '36.600006', rr(36.600006), 'lit')])
+        # two-sided with an *exclusive* upper bound whose scaling overshoots by an ulp or more at t = 1
+        arb_cases.append([V('greater_or_equal', '-300.1', rr(-300.1), 'lit'), V('less', '-20.7', rr(-20.7), 'lit')])
+        arb_cases.append([V('greater', '-20384.82', rr(-20384.82), 'lit'), V('less', '8338.08', rr(8338.08), 'lit')])
+        arb_cases.append([V('less', '10.4', rr(10.4), 'lit'), V('greater_or_equal', '-750.0', -750.0, 'lit'), V('finite')])
         # two-sided with an infinite end point: the scaling `lower + t * (upper - lower)` has an infinite range
         arb_cases.append([V('greater_or_equal', '0.0', 0.0, 'lit'), V('less_or_equal', f'{t}::INFINITY', float('inf'), 'expr')])
         arb_cases.append([V('greater', f'{t}::NEG_INFINITY', float('-inf'), 'expr'), V('less', '0.0', 0.0, 'lit'), V('finite')])
@@ -1000,6 +1004,13 @@ def build(tier='quick', seed=0):
         # inner types whose own equality is not reflexive
         ('Vec<f64>', '', ['Debug', 'Clone', 'PartialEq', 'PartialOrd', 'AsRef', 'Deref', 'Into', 'IntoIterator'], '|v| v.len() < 9', None),
         ('Option<f32>', '', ['Debug', 'Clone', 'Copy', 'PartialEq', 'PartialOrd', 'AsRef', 'Into'], None, None),
+        # inner types a template might be tempted to special-case
+        ('Vec<u8>', '', ['Debug', 'Clone', 'PartialEq', 'Eq', 'Hash', 'AsRef', 'Deref', 'Into', 'IntoIterator', 'Serialize', 'Deserialize', 'Arbitrary'],
+         '|v| v.len() < 9', None),
+        ('bool', '', ['Debug', 'Clone', 'Copy', 'PartialEq', 'Eq', 'Hash', 'AsRef', 'Into', 'Display', 'FromStr', 'Serialize', 'Deserialize', 'Arbitrary'], None, None),
+        ('char', '', ['Debug', 'Clone', 'Copy', 'PartialEq', 'Eq', 'PartialOrd', 'Ord', 'Hash', 'AsRef', 'Into', 'Display', 'FromStr', 'Serialize', 'Deserialize'],
+         '|c| c.is_alphabetic()', None),
+        ('Box<str>', '', ['Debug', 'Clone', 'PartialEq', 'Eq', 'Hash', 'AsRef', 'Deref', 'Into', 'Display', 'Serialize', 'Deserialize'], '|s| !s.is_empty()', None),
         ("&'a str", "<'a>", ['Debug', 'Clone', 'Copy', 'PartialEq', 'Eq', 'PartialOrd', 'Ord', 'Hash', 'AsRef', 'Deref', 'Into', 'Display'], '|s| !s.is_empty()', None),
     ]
     if thorough:
@@ -1338,7 +1349,7 @@ def build(tier='quick', seed=0):
             bare.append(nd)
     for i, d in enumerate(bare):
         d['name'] = f'B{i:04d}'
-    crates['cbare'] = {'features': [], 'std': True, 'bare': True,
+    crates['cbare'] = {'features': [], 'std': True, 'bare': True, 'edition': '2018',
                        'prelude': PRELUDE_STD + extra + numeric_prelude(), 'decls': bare}
     crates['cnostd'] = {'features': ['serde', 'arbitrary'], 'std': False,
                         'prelude': PRELUDE_NOSTD + numeric_prelude(), 'decls': nostd}
